@@ -3,7 +3,11 @@
 proof:  Properties/C34.v (render_refines for every valid entry point; native_single;
         native_joined; native_empty; render_async needs async; constant grouping unobservable) —
         literal_eval and str() are universally quantified
-tie  :  K  (A) the pieces the real root render function yields (sync generator / async generator)
+tie  :  T5 translator: gen/native_translate.py turns the current source of native_concat into a term of
+        Lib/PyNative; Gen_native.v proves it equal to Model.Native.native_concat for a generator argument
+        (consumed by islice, hence the chain) and for a list argument, literal_eval / str() quantified; the
+        hooks of NativeCodeGenerator and render / render_async are compared as exact statement shapes;
+        K  (A) the pieces the real root render function yields (sync generator / async generator)
         are fed to the extracted native_render; its answer — the object itself, None, or
         "literal_eval-or-text of <text>" evaluated with CPython's ast — must be what
         NativeTemplate.render / render_async return in sync and async-enabled native
@@ -206,6 +210,19 @@ def run(ctx):
         "for constants with a safe repr, evaluating str(c) as a literal gives back c, or c is a string (law behind emitting constants as text)",
     ]
     ctx.proof("C34")
+    # T5: native_concat's current source = the model function (generator and list arguments), and the exact
+    # statement shapes of the NativeCodeGenerator hooks and of render / render_async
+    import os
+    import sys
+    sys.path.insert(0, os.path.join(lib.ROOT, "gen"))
+    import native_translate
+    try:
+        vtext = native_translate.emit(lib.SRC)
+        ok, out = ctx.coq_obligation("Gen_native", vtext, n_obligations=3)
+        if ok:
+            ctx.trusted.append("Gen_native (native_concat source = model; member shapes): " + " ".join(out.split()))
+    except native_translate.Untranslatable as e:
+        ctx.broken.append(f"translator gen/native_translate.py: nativetypes left the translatable vocabulary: {e}")
     envs = {False: NativeEnvironment(), True: NativeEnvironment(enable_async=True)}
 
     cases = []   # (label, source, vars, predicted pieces or None)
